@@ -5,34 +5,6 @@ From HV Require Import Model.DecStream.
 Import ListNotations.
 
 (* ------------------------------------------------------------------ *)
-(* Witnesses: the faithful model reproduces the two behaviours of the pinned code. *)
-
-Definition euro : list byte := [xe2; x82; xac].
-Definition quote : byte := x22.
-
-(* a 3-byte character handed over 1+1+1: the slow path slices dec.buf[2:1] *)
-Lemma str_split3_panics :
-  exists cap chunks,
-    readStringAsSafeBytes 1 (reader_mode cap chunks) = Panic PStrWindow /\
-    readStringAsSafeBytes 1 (bytes_mode (concat chunks)) =
-      Ok (Some euro, mk (concat chunks) 3 4 [] false None).
-Proof. exists 8, [[xe2]; [x82]; [xac]; [quote]]. split; vm_compute; reflexivity. Qed.
-
-(* a 3-byte character at the very end of the input, split 2+1: value right, Error = EOF,
-   while the contiguous run (fast path) reports no error; every refill was long enough *)
-Lemma str_end_eof_differs :
-  exists cap chunks d1 d2,
-    readStringAsSafeBytes 1 (reader_mode cap chunks) = Ok (Some euro, d1) /\
-    readStringAsSafeBytes 1 (bytes_mode (concat chunks)) = Ok (Some euro, d2) /\
-    err d1 = Some EEOF /\ err d2 = None /\ remaining d1 = [] /\ remaining d2 = [] /\
-    str_why 1 (reader_mode cap chunks) = 3.
-Proof.
-  exists 8, [[xe2; x82]; [xac]].
-  eexists. eexists. split; [vm_compute; reflexivity|]. split; [vm_compute; reflexivity|].
-  vm_compute. repeat split; reflexivity.
-Qed.
-
-(* ------------------------------------------------------------------ *)
 (* Well-formed decoder states and basic facts about the window. *)
 
 Definition wf (d : dst) : Prop :=
@@ -928,119 +900,6 @@ Proof. intros [x|] k; reflexivity. Qed.
 Lemma wf_set_err : forall d k, wf d -> wf (set_err d k).
 Proof. intros d k H. exact H. Qed.
 
-Lemma slow_loop_spec : forall fuel d n data safe c s m,
-  wf d -> mu (pending d) < fuel ->
-  scan (remaining d) 0 n = (c, s, m, true) -> (0 <= m)%Z ->
-  refill_ok fuel n (window d) (length (buf d)) (pending d) = true ->
-  ((c =? length (remaining d)) && (s =? 0) && (m <=? 0)%Z) = false ->
-  match slow_loop fuel d n (Z.of_nat (tail d) - Z.of_nat (head d)) data safe with
-  | Ok (Some x, _, d') =>
-      wf d' /\
-      (x, abs d') = str_out (match data with Some v => v | None => [] end) (remaining d) (err d) n
-  | _ => False
-  end.
-Proof.
-  induction fuel as [|f IH]; intros d n data safe c s m Hwf Hmu Hscan Hm Hrf Hne; [lia|].
-  cbn [slow_loop]. rewrite (window_slice d Hwf).
-  pose proof (length_window d Hwf) as Hlw.
-  assert (Hlen : (Z.of_nat (tail d) - Z.of_nat (head d))%Z = Z.of_nat (length (window d)))
-    by (destruct Hwf; lia).
-  rewrite Hlen.
-  rewrite (slow_inner_scan (S (length (window d))) (window d) 0 n ltac:(lia) ltac:(lia)).
-  cbn [skipn Nat.add].
-  assert (Hrem : remaining d = window d ++ concat (pending d)) by reflexivity.
-  unfold str_out. rewrite Hscan.
-  rewrite Hrem, scan_app in Hscan.
-  cbn [refill_ok] in Hrf.
-  destruct (scan (window d) 0 n) as [[[cw sw] mw] vw] eqn:Ew.
-  destruct (scan_le _ _ _ _ _ _ _ Ew) as (Hcw & Hmw).
-  destruct vw; cbn [andb] in Hscan; [|inversion Hscan].
-  destruct (cw =? length (window d)) eqn:Ecw.
-  - (* the window is used up *)
-    apply Nat.eqb_eq in Ecw. subst cw.
-    replace (length (window d) <? length (window d)) with false in Hrf by (symmetry; apply Nat.ltb_irrefl).
-    destruct (scan (concat (pending d)) sw mw) as [[[c2 s2] m2] v2] eqn:E2.
-    inversion Hscan; subst c s m v2. clear Hscan.
-    destruct (scan_le _ _ _ _ _ _ _ E2) as (Hc2 & Hm2).
-    replace (0 <? Z.of_nat (length (window d)) - Z.of_nat (length (window d) + sw))%Z with false by lia.
-    replace (negb safe && (mw * 3 <? 0)%Z) with false by (destruct safe; cbn; lia).
-    pose proof (loadMore_spec d Hwf) as H.
-    destruct (loadMore d) as [[[|] d1]| |]; try contradiction.
-    + destruct H as (A & B & C & D & E & F & G & J & K & L).
-      rewrite L in Hrf. apply andb_prop in Hrf. destruct Hrf as (Hsw & Hrf).
-      apply Nat.leb_le in Hsw.
-      pose proof (length_window d1 A) as Hlw1. rewrite B, Nat.sub_0_r in Hlw1.
-      replace (Z.to_nat (- (Z.of_nat (length (window d)) - Z.of_nat (length (window d) + sw)))) with sw by lia.
-      destruct (window_split d1 sw A ltac:(lia)) as (Hs1 & Hw1 & Hwf2).
-      rewrite Hs1.
-      assert (HP : concat (pending d) = window d1 ++ concat (pending d1)) by (rewrite <- D; reflexivity).
-      set (d2 := set_head d1 (head d1 + sw)) in *.
-      assert (Hw2 : window d2 = skipn sw (window d1)) by (apply window_skip; [exact A|lia]).
-      assert (Hr2 : remaining d2 = skipn sw (concat (pending d))).
-      { unfold d2. rewrite remaining_set_head. fold d2. rewrite Hw2, HP, skipn_app_le by lia. reflexivity. }
-      assert (HswP : sw <= length (concat (pending d))) by (rewrite HP, app_length; lia).
-      rewrite (scan_skip_le _ _ _ HswP) in E2.
-      destruct (scan (skipn sw (concat (pending d))) 0 mw) as [[[c3 s3] m3] v3] eqn:E3.
-      inversion E2; subst c2 s2 m2 v3. clear E2.
-      assert (Hne2 : ((c3 =? length (remaining d2)) && (s3 =? 0) && (m3 <=? 0)%Z) = false).
-      { rewrite Hr2, skipn_length. rewrite Hrem, app_length in Hne.
-        destruct (s3 =? 0); destruct (m3 <=? 0)%Z; rewrite ?andb_false_r in *; try reflexivity.
-        rewrite !andb_true_r in *. apply Nat.eqb_neq. apply Nat.eqb_neq in Hne. lia. }
-      specialize (IH d2 mw (Some ((match data with Some x => x | None => [] end ++ window d) ++ firstn sw (window d1))) true
-                     c3 s3 m3 Hwf2 ltac:(unfold d2; cbn [set_head pending]; lia)
-                     ltac:(rewrite Hr2; exact E3) Hm).
-      assert (Hrf2 : refill_ok f mw (window d2) (length (buf d2)) (pending d2) = true).
-      { rewrite Hw2. unfold d2. cbn [set_head buf pending]. rewrite J. exact Hrf. }
-      specialize (IH Hrf2 Hne2).
-      destruct (slow_loop f d2 mw (Z.of_nat (tail d2) - Z.of_nat (head d2)) _ true) as [[[[x|] sf] d3]| |];
-        try contradiction.
-      destruct IH as (Hwf3 & IH). split; [exact Hwf3|].
-      rewrite IH. unfold str_out. rewrite Hr2, E3.
-      assert (Herr : err d2 = err d) by (unfold d2; cbn [set_head err]; exact E).
-      rewrite Herr.
-      assert (Hf1 : firstn sw (window d1) = firstn sw (concat (pending d)))
-        by (rewrite HP, firstn_app_le by lia; reflexivity).
-      rewrite Hf1, Hrem.
-      destruct ((s3 =? 0) && (m3 <=? 0)%Z).
-      * f_equal.
-        -- rewrite firstn_app_ge by lia.
-           replace (length (window d) + (sw + c3) - length (window d)) with (sw + c3) by lia.
-           rewrite firstn_add, <- !app_assoc. reflexivity.
-        -- f_equal. rewrite skipn_app_ge by lia.
-           replace (length (window d) + (sw + c3) - length (window d)) with (sw + c3) by lia.
-           rewrite skipn_skipn'. reflexivity.
-      * f_equal. rewrite <- !app_assoc. f_equal. f_equal.
-        rewrite <- (firstn_skipn sw (concat (pending d))) at 3. reflexivity.
-    + destruct H as (A & B & C & D & E & F & G & J).
-      rewrite D in E2. cbn [scan] in E2. inversion E2; subst c2 s2 m2. clear E2.
-      rewrite D, app_nil_r in *.
-      rewrite Hrem in Hne. rewrite Hrem. rewrite Nat.add_0_r, Nat.eqb_refl in Hne. cbn [andb] in Hne. rewrite Hne.
-      set (d1' := if (Z.of_nat (length (window d)) - Z.of_nat (length (window d) + sw) <? 0)%Z
-                  then set_err d1 EInvalidUTF8 else d1).
-      assert (Hd1' : wf d1' /\ remaining d1' = [] /\ err d1' = or_err (err d) EEOF).
-      { unfold d1'. destruct (_ <? 0)%Z.
-        - split; [apply wf_set_err; exact A|]. split; [exact C|].
-          cbn [set_err err]. rewrite E. apply or_err_idem.
-        - split; [exact A|]. split; assumption. }
-      destruct Hd1' as (W & R & Er). split; [exact W|].
-      f_equal. apply abs_eq; assumption.
-  - (* the string ends inside the window *)
-    apply Nat.eqb_neq in Ecw. assert (Hlt : cw < length (window d)) by lia.
-    inversion Hscan; subst c s m. clear Hscan.
-    destruct (scan_early _ _ _ _ _ _ Ew Hlt) as (Hs0 & Hm0). subst sw.
-    rewrite Nat.add_0_r.
-    replace (0 <? Z.of_nat (length (window d)) - Z.of_nat cw)%Z with true by lia.
-    destruct (window_split d cw Hwf ltac:(lia)) as (Hs1 & Hw1 & Hwf1).
-    rewrite Hs1.
-    replace ((0 =? 0) && (mw <=? 0)%Z) with true by (cbn; lia).
-    assert (Hres : forall dt, (dt ++ firstn cw (window d), abs (set_head d (head d + cw))) =
-                   (dt ++ firstn cw (window d ++ concat (pending d)),
-                    (skipn cw (window d ++ concat (pending d)), err d))).
-    { intros dt. rewrite firstn_app_le, skipn_app_le by lia. f_equal.
-      apply abs_eq; [|reflexivity].
-      rewrite remaining_set_head, window_skip by (try assumption; lia). reflexivity. }
-    destruct data as [dt|]; (split; [exact Hwf1|]); [apply Hres | apply (Hres [])].
-Qed.
 
 Lemma scan_done : forall bs m, (m <= 0)%Z -> scan bs 0 m = (0, 0, m, true).
 Proof.
@@ -1070,24 +929,205 @@ Proof.
     repeat split; lia.
 Qed.
 
-Lemma str_refines : forall n d, wf d -> str_guard n d = true ->
+
+(* the refill loop: keep reading until the bytes the split character still owes are in the window *)
+Lemma refill_loop_spec : forall fuel d rem data, wf d -> head d = 0 -> mu (pending d) < fuel ->
+  (rem <= 0)%Z ->
+  match refill_loop fuel d rem data with
+  | Ok (true, dt, rem', d') =>
+      wf d' /\ head d' = 0 /\ (rem' <= 0)%Z /\ Z.to_nat (- rem') <= tail d' /\
+      dt ++ firstn (Z.to_nat (- rem')) (window d') = data ++ firstn (Z.to_nat (- rem)) (remaining d) /\
+      skipn (Z.to_nat (- rem')) (remaining d') = skipn (Z.to_nat (- rem)) (remaining d) /\
+      Z.to_nat (- rem) <= length (remaining d) /\
+      err d' = err d /\ mu (pending d') <= mu (pending d) /\ length (buf d') = length (buf d)
+  | Ok (false, dt, _, d') =>
+      wf d' /\ length (remaining d) < Z.to_nat (- rem) /\ dt = data ++ remaining d /\
+      remaining d' = [] /\ err d' = or_err (err d) EEOF
+  | _ => False
+  end.
+Proof.
+  induction fuel as [|f IH]; intros d rem data Hwf Hh Hmu Hrem; [lia|].
+  cbn [refill_loop].
+  pose proof (length_window d Hwf) as Hlw. rewrite Hh, Nat.sub_0_r in Hlw.
+  assert (Hr : remaining d = window d ++ concat (pending d)) by reflexivity.
+  destruct (Z.of_nat (tail d) <? - rem)%Z eqn:Et.
+  - pose proof (window_slice d Hwf) as Hs. rewrite Hh in Hs. rewrite Hs.
+    pose proof (loadMore_spec d Hwf) as H.
+    destruct (loadMore d) as [[[|] d1]| |]; try contradiction.
+    + destruct H as (A & B & C & D & E & F & G & J & K & L).
+      specialize (IH d1 (rem + Z.of_nat (tail d))%Z (data ++ window d) A B ltac:(lia) ltac:(lia)).
+      destruct (refill_loop f d1 (rem + Z.of_nat (tail d)) (data ++ window d)) as [[[[[|] dt] rem'] d2]| |];
+        try contradiction.
+      * destruct IH as (I1 & I2 & I3 & I4 & I5 & I6 & I7 & I8 & I9 & I10).
+        rewrite D in I5, I6, I7.
+        splits; try assumption; try lia.
+        -- rewrite I5, Hr, firstn_app_ge by lia. rewrite <- app_assoc. f_equal. f_equal. f_equal. lia.
+        -- rewrite I6, Hr, skipn_app_ge by lia. f_equal. lia.
+        -- rewrite Hr, app_length. lia.
+        -- rewrite I8. exact E.
+      * destruct IH as (I1 & I2 & I3 & I4 & I5). rewrite D in I2, I3.
+        splits; try assumption.
+        -- rewrite Hr, app_length. lia.
+        -- rewrite I3, Hr, <- app_assoc. reflexivity.
+        -- rewrite I5, E. reflexivity.
+    + destruct H as (A & B & C & D & E & F & G & J).
+      rewrite Hr, D, app_nil_r. splits.
+      * apply wf_set_err. exact A.
+      * lia.
+      * reflexivity.
+      * exact C.
+      * cbn [set_err err]. rewrite E. apply or_err_idem.
+  - splits; try assumption; try lia; try reflexivity.
+    + rewrite Hr, firstn_app_le by lia. reflexivity.
+    + rewrite Hr, app_length. lia.
+Qed.
+
+Lemma slow_loop_spec : forall fuel d n data safe c s m,
+  wf d -> mu (pending d) < fuel ->
+  scan (remaining d) 0 n = (c, s, m, true) -> (0 <= m)%Z ->
+  match slow_loop fuel d n (Z.of_nat (tail d) - Z.of_nat (head d)) data safe with
+  | Ok (Some x, _, d') =>
+      wf d' /\
+      (x, abs d') = str_out (match data with Some v => v | None => [] end) (remaining d) (err d) n
+  | _ => False
+  end.
+Proof.
+  induction fuel as [|f IH]; intros d n data safe c s m Hwf Hmu Hscan Hm; [lia|].
+  cbn [slow_loop]. rewrite (window_slice d Hwf).
+  pose proof (length_window d Hwf) as Hlw.
+  assert (Hlen : (Z.of_nat (tail d) - Z.of_nat (head d))%Z = Z.of_nat (length (window d)))
+    by (destruct Hwf; lia).
+  rewrite Hlen.
+  rewrite (slow_inner_scan (S (length (window d))) (window d) 0 n ltac:(lia) ltac:(lia)).
+  cbn [skipn Nat.add].
+  assert (Hrem : remaining d = window d ++ concat (pending d)) by reflexivity.
+  unfold str_out. rewrite Hscan.
+  rewrite Hrem, scan_app in Hscan.
+  destruct (scan (window d) 0 n) as [[[cw sw] mw] vw] eqn:Ew.
+  destruct (scan_le _ _ _ _ _ _ _ Ew) as (Hcw & Hmw).
+  destruct vw; cbn [andb] in Hscan; [|inversion Hscan].
+  assert (Hres : forall k dt, k <= length (window d) ->
+            (dt ++ firstn k (window d), abs (set_head d (head d + k))) =
+            (dt ++ firstn k (window d ++ concat (pending d)),
+             (skipn k (window d ++ concat (pending d)), err d))).
+  { intros k dt Hk. rewrite firstn_app_le, skipn_app_le by lia. f_equal.
+    apply abs_eq; [|reflexivity].
+    rewrite remaining_set_head, window_skip by (try assumption; lia). reflexivity. }
+  destruct (cw =? length (window d)) eqn:Ecw.
+  - (* the window is used up *)
+    apply Nat.eqb_eq in Ecw. subst cw.
+    destruct (scan (concat (pending d)) sw mw) as [[[c2 s2] m2] v2] eqn:E2.
+    inversion Hscan; subst c s m v2. clear Hscan.
+    destruct (scan_le _ _ _ _ _ _ _ E2) as (Hc2 & Hm2).
+    replace (0 <? Z.of_nat (length (window d)) - Z.of_nat (length (window d) + sw))%Z with false by lia.
+    cbn [orb].
+    destruct ((Z.of_nat (length (window d)) - Z.of_nat (length (window d) + sw) =? 0)%Z && (mw <=? 0)%Z) eqn:Eret.
+    + (* the string ends exactly with the window: return without a refill *)
+      apply andb_prop in Eret. destruct Eret as (Es0 & Em0).
+      assert (sw = 0) by lia. subst sw. assert (Hmw0 : (mw <= 0)%Z) by lia.
+      rewrite scan_done in E2 by lia. inversion E2; subst c2 s2 m2. clear E2.
+      rewrite !Nat.add_0_r.
+      destruct (window_split d (length (window d)) Hwf ltac:(lia)) as (Hs1 & _ & Hwf1).
+      rewrite Hs1.
+      replace ((0 =? 0) && (mw <=? 0)%Z) with true by (cbn; lia).
+      rewrite Hrem.
+      destruct data as [dt|]; (split; [exact Hwf1|]); [apply Hres | apply (Hres _ [])]; lia.
+    + replace (negb safe && (mw * 3 <? 0)%Z) with false by (destruct safe; cbn; lia).
+      pose proof (loadMore_spec d Hwf) as H.
+      destruct (loadMore d) as [[[|] d1]| |]; try contradiction.
+      * destruct H as (A & B & C & D & E & F & G & J & K & L).
+        assert (HP : remaining d1 = concat (pending d)) by exact D.
+        pose proof (refill_loop_spec (fuel_of d1) d1
+                      (Z.of_nat (length (window d)) - Z.of_nat (length (window d) + sw))%Z
+                      (match data with Some x => x | None => [] end ++ window d)
+                      A B ltac:(unfold fuel_of, mu; lia) ltac:(lia)) as HR.
+        replace (Z.to_nat (- (Z.of_nat (length (window d)) - Z.of_nat (length (window d) + sw)))) with sw in HR by lia.
+        destruct (refill_loop (fuel_of d1) d1 _ _) as [[[[[|] data3] rem2] d2]| |]; try contradiction.
+        -- destruct HR as (R1 & R2 & R3 & R4 & R5 & R6 & R7 & R8 & R9 & R10).
+           rewrite HP in R5, R6, R7.
+           pose proof (length_window d2 R1) as Hlw2. rewrite R2, Nat.sub_0_r in Hlw2.
+           destruct (window_split d2 (Z.to_nat (- rem2)) R1 ltac:(lia)) as (Hs2 & _ & Hwf3).
+           rewrite Hs2.
+           set (d3 := set_head d2 (head d2 + Z.to_nat (- rem2))) in *.
+           assert (Hr3 : remaining d3 = skipn sw (concat (pending d))).
+           { unfold d3. rewrite remaining_set_head, window_skip by (try assumption; lia).
+             rewrite <- R6. unfold remaining. rewrite skipn_app_le by lia. reflexivity. }
+           rewrite (scan_skip_le _ _ _ R7) in E2.
+           destruct (scan (skipn sw (concat (pending d))) 0 mw) as [[[c3 s3] m3] v3] eqn:E3.
+           inversion E2; subst c2 s2 m2 v3. clear E2.
+           specialize (IH d3 mw (Some (data3 ++ firstn (Z.to_nat (- rem2)) (window d2))) true
+                          c3 s3 m3 Hwf3 ltac:(unfold d3; cbn [set_head pending]; lia)
+                          ltac:(rewrite Hr3; exact E3) Hm).
+           destruct (slow_loop f d3 mw (Z.of_nat (tail d3) - Z.of_nat (head d3)) _ true) as [[[[x|] sf] d4]| |];
+             try contradiction.
+           destruct IH as (Hwf4 & IH). split; [exact Hwf4|].
+           rewrite IH. unfold str_out. rewrite Hr3, E3.
+           assert (Herr : err d3 = err d) by (unfold d3; cbn [set_head err]; rewrite R8; exact E).
+           rewrite Herr, R5, Hrem.
+           destruct ((s3 =? 0) && (m3 <=? 0)%Z).
+           ++ f_equal.
+              ** rewrite firstn_app_ge by lia.
+                 replace (length (window d) + (sw + c3) - length (window d)) with (sw + c3) by lia.
+                 rewrite firstn_add, <- !app_assoc. reflexivity.
+              ** f_equal. rewrite skipn_app_ge by lia.
+                 replace (length (window d) + (sw + c3) - length (window d)) with (sw + c3) by lia.
+                 rewrite skipn_skipn'. reflexivity.
+           ++ f_equal. rewrite <- !app_assoc. f_equal. f_equal.
+              rewrite <- (firstn_skipn sw (concat (pending d))) at 3. reflexivity.
+        -- (* the input ends inside the split character *)
+           destruct HR as (R1 & R2 & R3 & R4 & R5). rewrite HP in R2, R3.
+           rewrite (scan_skip_ge (concat (pending d)) sw mw ltac:(lia)) in E2. inversion E2; subst c2 s2 m2. clear E2.
+           replace ((sw - length (concat (pending d)) =? 0) && (mw <=? 0)%Z) with false
+             by (symmetry; apply andb_false_iff; left; apply Nat.eqb_neq; lia).
+           split; [exact R1|]. rewrite Hrem, R3, <- app_assoc. f_equal.
+           apply abs_eq; [exact R4|rewrite R5, E; reflexivity].
+      * destruct H as (A & B & C & D & E & F & G & J).
+        rewrite D in E2. cbn [scan] in E2. inversion E2; subst c2 s2 m2. clear E2.
+        rewrite D, app_nil_r in *. rewrite Hrem.
+        assert (Hb : (sw =? 0) && (mw <=? 0)%Z = false).
+        { apply andb_false_iff. apply andb_false_iff in Eret. destruct Eret as [X|X]; [left|right]; lia. }
+        rewrite Hb.
+        set (d1' := if (Z.of_nat (length (window d)) - Z.of_nat (length (window d) + sw) <? 0)%Z
+                    then set_err d1 EInvalidUTF8 else d1).
+        assert (Hd1' : wf d1' /\ remaining d1' = [] /\ err d1' = or_err (err d) EEOF).
+        { unfold d1'. destruct (_ <? 0)%Z.
+          - split; [apply wf_set_err; exact A|]. split; [exact C|].
+            cbn [set_err err]. rewrite E. apply or_err_idem.
+          - split; [exact A|]. split; assumption. }
+        destruct Hd1' as (W & R & Er). split; [exact W|].
+        f_equal. apply abs_eq; assumption.
+  - (* the string ends inside the window *)
+    apply Nat.eqb_neq in Ecw. assert (Hlt : cw < length (window d)) by lia.
+    inversion Hscan; subst c s m. clear Hscan.
+    destruct (scan_early _ _ _ _ _ _ Ew Hlt) as (Hs0 & Hm0). subst sw.
+    rewrite Nat.add_0_r.
+    replace (0 <? Z.of_nat (length (window d)) - Z.of_nat cw)%Z with true by lia. cbn [orb].
+    destruct (window_split d cw Hwf ltac:(lia)) as (Hs1 & Hw1 & Hwf1).
+    rewrite Hs1.
+    replace ((0 =? 0) && (mw <=? 0)%Z) with true by (cbn; lia).
+    rewrite Hrem.
+    destruct data as [dt|]; (split; [exact Hwf1|]); [apply Hres | apply (Hres _ [])]; lia.
+Qed.
+
+
+
+Lemma str_refines : forall n d, wf d -> str_ok n (remaining d) = true ->
   rel (readStringAsSafeBytes n d) (s_str n (abs d)).
 Proof.
   intros n d Hwf Hg. unfold readStringAsSafeBytes, readStringAsBytes, s_str, rel.
-  unfold str_guard, str_why in Hg.
+  unfold str_ok in Hg.
   destruct (n =? 0)%Z eqn:En; [cbn [bind]; split; [exact Hwf|reflexivity]|].
+  cbn [orb] in Hg.
   pose proof (ensure_spec d Hwf) as H.
   destruct (ensure d) as [[[|] d1]| |]; try contradiction.
   - destruct H as (A & B & C & D & E & F & G & J).
     pose proof (length_window d1 A) as Hlw.
     assert (Hlen : (Z.of_nat (tail d1) - Z.of_nat (head d1))%Z = Z.of_nat (length (window d1)))
       by (destruct A; lia).
-    unfold abs. cbn [fst snd]. rewrite <- C. rewrite <- C in D.
-    destruct (remaining d1) as [|b0 r0] eqn:Er; [contradiction|]. rewrite <- Er. clear D.
-    unfold str_parts in Hg.
+    unfold abs. cbn [fst snd]. rewrite <- C. rewrite <- C in D, Hg.
+    destruct (remaining d1) as [|b0 r0] eqn:Er; [contradiction|]. rewrite <- Er. rewrite <- Er in Hg. clear D.
     destruct (scan (remaining d1) 0 n) as [[[c s] m] v] eqn:Es.
     destruct v; cbn [andb negb] in Hg; [|discriminate].
-    destruct (0 <=? m)%Z eqn:Em; cbn [negb] in Hg; [|discriminate].
     rewrite Hlen. cbn [negb].
     destruct (n * 3 <=? Z.of_nat (length (window d1)))%Z eqn:Ef.
     + (* fast path *)
@@ -1103,13 +1143,8 @@ Proof.
       f_equal. apply abs_eq; [|cbn [set_head err]; exact E].
       rewrite remaining_set_head, window_skip by (try assumption; lia). reflexivity.
     + (* slow path *)
-      destruct (refill_ok (S (fuel_of d1)) n (window d1) (length (buf d1)) (pending d1)) eqn:Erf;
-        cbn [negb] in Hg; [|discriminate].
-      destruct (negb ((c =? length (remaining d1)) && (s =? 0) && (m <=? 0)%Z)) eqn:Ene;
-        cbn [negb] in Hg; [|discriminate].
-      apply negb_true_iff in Ene.
       pose proof (slow_loop_spec (S (fuel_of d1)) d1 n None false c s m A
-                    ltac:(unfold fuel_of, mu; lia) Es ltac:(lia) Erf Ene) as HL.
+                    ltac:(unfold fuel_of, mu; lia) Es ltac:(lia)) as HL.
       rewrite Hlen in HL.
       destruct (slow_loop (S (fuel_of d1)) d1 n (Z.of_nat (length (window d1))) None false)
         as [[[[x|] sf] d2]| |]; try contradiction.
@@ -1123,8 +1158,10 @@ Qed.
 Lemma readStringAsBytesTop_refines : forall d, wf d -> cmd_guard CReadStringAsBytes d = true ->
   rel (readStringAsBytesTop d) (s_readStringAsBytesTop (abs d)).
 Proof.
-  intros d Hwf Hg. unfold readStringAsBytesTop, s_readStringAsBytesTop. cbn [cmd_guard] in Hg.
-  chain H1 (readInt64_refines d Hwf). destruct H1 as (W1 & Q1). rewrite <- Q1. cbn [bind]. cbv beta iota.
+  intros d Hwf Hg. unfold readStringAsBytesTop, s_readStringAsBytesTop.
+  unfold cmd_guard, s_cmd_guard in Hg.
+  chain H1 (readInt64_refines d Hwf). destruct H1 as (W1 & Q1). rewrite <- Q1 in *. cbn [bind]. cbv beta iota.
+  cbv beta iota in Hg. unfold abs at 1 in Hg. cbn [fst] in Hg.
   chain H2 (str_refines v d0 W1 Hg). destruct H2 as (W2 & Q2). rewrite <- Q2. cbn [bind]. cbv beta iota.
   pose proof (skip_refines d1 W2) as H3. unfold rel1 in H3.
   destruct (skip d1) as [d2| |]; try contradiction. destruct H3 as (W3 & Q3).
@@ -1184,12 +1221,12 @@ Definition obs_run (x : list value * res dst) : list value * option (option sst)
 Definition obs_srun (x : list value * res sst) : list value * option (option sst) :=
   (fst x, match snd x with Ok s => Some (Some s) | Panic _ => Some None | OutOfFuel => None end).
 
-Lemma run_refines : forall p d, wf d -> guarded p d ->
+Lemma run_refines : forall p d, wf d -> s_guarded p (abs d) ->
   obs_run (run p d) = obs_srun (s_run p (abs d)) /\ snd (obs_run (run p d)) <> None.
 Proof.
   induction p as [|c k IH]; intros d Hwf Hg.
   - cbn. split; [reflexivity|discriminate].
-  - cbn [run s_run]. cbn [guarded] in Hg. destruct Hg as (Hc & Hk).
+  - cbn [run s_run]. cbn [s_guarded] in Hg. destruct Hg as (Hc & Hk).
     pose proof (exec_refines c d Hwf Hc) as H. unfold relr in H.
     destruct (exec c d) as [[v d1]| |]; destruct (s_exec c (abs d)) as [[v' s1]| |]; try contradiction.
     + destruct H as (W & Qv & Qs). subst v' s1.
@@ -1224,13 +1261,13 @@ Qed.
 (* any decoder program: a fragmenting reader and the contiguous slice give the same
    values, the same error and the same rest of the stream *)
 Lemma fragmentation_independent : forall p cap chunks, 1 <= cap ->
-  guarded p (reader_mode cap chunks) -> guarded p (bytes_mode (concat chunks)) ->
+  s_guarded p (concat chunks, None) ->
   obs_run (run p (reader_mode cap chunks)) = obs_run (run p (bytes_mode (concat chunks))) /\
   snd (obs_run (run p (reader_mode cap chunks))) <> None.
 Proof.
-  intros p cap chunks Hcap G1 G2.
-  destruct (run_refines p _ (wf_reader_mode cap chunks Hcap) G1) as (R1 & N1).
-  destruct (run_refines p _ (wf_bytes_mode (concat chunks)) G2) as (R2 & N2).
+  intros p cap chunks Hcap G.
+  destruct (run_refines p _ (wf_reader_mode cap chunks Hcap) ltac:(rewrite abs_reader_mode; exact G)) as (R1 & N1).
+  destruct (run_refines p _ (wf_bytes_mode (concat chunks)) ltac:(rewrite abs_bytes_mode; exact G)) as (R2 & N2).
   rewrite abs_reader_mode in R1. rewrite abs_bytes_mode in R2.
   split; [rewrite R1, R2; reflexivity|exact N1].
 Qed.
@@ -1243,11 +1280,11 @@ Inductive nostr : prog -> Prop :=
 | nostr_done : nostr Done
 | nostr_step : forall c k, cmd_nostr c = true -> (forall v, nostr (k v)) -> nostr (Step c k).
 
-Lemma nostr_guarded : forall p, nostr p -> forall d, guarded p d.
+Lemma nostr_guarded : forall p, nostr p -> forall s, s_guarded p s.
 Proof.
-  induction 1 as [|c k Hc Hk IH]; intros d; cbn [guarded]; [exact Logic.I|].
+  induction 1 as [|c k Hc Hk IH]; intros s; cbn [s_guarded]; [exact Logic.I|].
   split; [destruct c; try reflexivity; discriminate|].
-  destruct (exec c d) as [[v d1]| |]; try exact Logic.I. apply IH.
+  destruct (s_exec c s) as [[v s1]| |]; try exact Logic.I. apply IH.
 Qed.
 
 Lemma fragmentation_independent_nostr : forall p cap chunks, 1 <= cap -> nostr p ->
@@ -1255,107 +1292,103 @@ Lemma fragmentation_independent_nostr : forall p cap chunks, 1 <= cap -> nostr p
   snd (obs_run (run p (reader_mode cap chunks))) <> None.
 Proof.
   intros p cap chunks Hcap Hn.
-  apply fragmentation_independent; [exact Hcap| |]; apply nostr_guarded; exact Hn.
+  apply fragmentation_independent; [exact Hcap|]. apply nostr_guarded. exact Hn.
 Qed.
+
 
 (* ------------------------------------------------------------------ *)
-(* Exactness of the refill condition: a refill shorter than what the split character
-   still owes always ends in a Go panic. *)
+(* Historical: readStringAsBytes as it was before commit 8eb4ed7 ("fix: readStringAsBytes
+   handles characters split over several reads and strings ending at end of input").  Kept
+   only to record the two behaviours this development found in it. *)
 
-Lemma slice_none_gt : forall b lo hi, hi < lo -> slice b lo hi = None.
-Proof.
-  intros b lo hi H. unfold slice. destruct (lo <=? hi) eqn:E; [apply Nat.leb_le in E; lia|reflexivity].
-Qed.
+Fixpoint slow_loop_pinned (fuel : nat) (d : dst) (n length_ : Z) (data : option (list byte)) (safe : bool)
+  : res (option (list byte) * bool * dst) :=
+  match fuel with
+  | O => OutOfFuel
+  | S f =>
+    match slice (buf d) (head d) (tail d) with
+    | None => Panic PStrWindow
+    | Some w =>
+      match slow_inner (S (length w)) w 0 n length_ with
+      | Panic s => Panic s
+      | OutOfFuel => OutOfFuel
+      | Ok (off, n1, false) => Ok (data, safe, set_err d EInvalidUTF8)
+      | Ok (off, n1, true) =>
+        let rem := (length_ - Z.of_nat off)%Z in
+        if (0 <? rem)%Z then
+          match slice (buf d) (head d) (head d + off) with      (* buf[:off], cap(buf) = cap - head *)
+          | None => Panic PSlice
+          | Some pre =>
+            let d1 := set_head d (head d + off) in
+            match data with
+            | None => Ok (Some pre, false, d1)
+            | Some dt => Ok (Some (dt ++ pre), safe, d1)
+            end
+          end
+        else
+          if negb safe && (n1 * 3 <? 0)%Z then Panic PStrMake else
+          let dt := match data with Some x => x | None => [] end in
+          let data2 := dt ++ w in
+          match loadMore d with
+          | Panic s => Panic s
+          | OutOfFuel => OutOfFuel
+          | Ok (false, d1) => Ok (Some data2, true, if (rem <? 0)%Z then set_err d1 EInvalidUTF8 else d1)
+          | Ok (true, d1) =>
+            let k := Z.to_nat (- rem) in
+            match slice (buf d1) (head d1) (head d1 + k) with
+            | None => Panic PStrExtra
+            | Some extra =>
+              let d2 := set_head d1 (head d1 + k) in
+              slow_loop_pinned f d2 n1 (Z.of_nat (tail d2) - Z.of_nat (head d2))%Z (Some (data2 ++ extra)) true
+            end
+          end
+      end
+    end
+  end.
 
-Lemma slow_loop_panics : forall fuel d n data safe c s m,
-  wf d -> mu (pending d) < fuel ->
-  scan (remaining d) 0 n = (c, s, m, true) -> (0 <= m)%Z ->
-  refill_ok fuel n (window d) (length (buf d)) (pending d) = false ->
-  exists site, slow_loop fuel d n (Z.of_nat (tail d) - Z.of_nat (head d)) data safe = Panic site.
-Proof.
-  induction fuel as [|f IH]; intros d n data safe c s m Hwf Hmu Hscan Hm Hrf; [lia|].
-  cbn [slow_loop]. rewrite (window_slice d Hwf).
-  pose proof (length_window d Hwf) as Hlw.
-  assert (Hlen : (Z.of_nat (tail d) - Z.of_nat (head d))%Z = Z.of_nat (length (window d)))
-    by (destruct Hwf; lia).
-  rewrite Hlen.
-  rewrite (slow_inner_scan (S (length (window d))) (window d) 0 n ltac:(lia) ltac:(lia)).
-  cbn [skipn Nat.add].
-  assert (Hrem : remaining d = window d ++ concat (pending d)) by reflexivity.
-  rewrite Hrem, scan_app in Hscan.
-  cbn [refill_ok] in Hrf.
-  destruct (scan (window d) 0 n) as [[[cw sw] mw] vw] eqn:Ew.
-  destruct (scan_le _ _ _ _ _ _ _ Ew) as (Hcw & Hmw).
-  destruct vw; cbn [andb] in Hscan; [|inversion Hscan].
-  destruct (cw <? length (window d)) eqn:Ecw; [discriminate|].
-  apply Nat.ltb_ge in Ecw. assert (cw = length (window d)) by lia. subst cw.
-  rewrite Nat.eqb_refl in Hscan.
-  destruct (scan (concat (pending d)) sw mw) as [[[c2 s2] m2] v2] eqn:E2.
-  inversion Hscan; subst c s m v2. clear Hscan.
-  destruct (scan_le _ _ _ _ _ _ _ E2) as (Hc2 & Hm2).
-  replace (0 <? Z.of_nat (length (window d)) - Z.of_nat (length (window d) + sw))%Z with false by lia.
-  replace (negb safe && (mw * 3 <? 0)%Z) with false by (destruct safe; cbn; lia).
-  pose proof (loadMore_spec d Hwf) as H.
-  destruct (loadMore d) as [[[|] d1]| |]; try contradiction.
-  - destruct H as (A & B & C & D & E & F & G & J & K & L).
-    rewrite L in Hrf.
-    pose proof (length_window d1 A) as Hlw1. rewrite B, Nat.sub_0_r in Hlw1.
-    replace (Z.to_nat (- (Z.of_nat (length (window d)) - Z.of_nat (length (window d) + sw)))) with sw by lia.
-    destruct (sw <=? length (window d1)) eqn:Esw; cbn [andb] in Hrf.
-    + apply Nat.leb_le in Esw.
-      destruct (window_split d1 sw A ltac:(lia)) as (Hs1 & Hw1 & Hwf2).
-      rewrite Hs1.
-      assert (HP : concat (pending d) = window d1 ++ concat (pending d1)) by (rewrite <- D; reflexivity).
-      set (d2 := set_head d1 (head d1 + sw)) in *.
-      assert (Hw2 : window d2 = skipn sw (window d1)) by (apply window_skip; [exact A|lia]).
-      assert (Hr2 : remaining d2 = skipn sw (concat (pending d))).
-      { unfold d2. rewrite remaining_set_head. fold d2. rewrite Hw2, HP, skipn_app_le by lia. reflexivity. }
-      assert (HswP : sw <= length (concat (pending d))) by (rewrite HP, app_length; lia).
-      rewrite (scan_skip_le _ _ _ HswP) in E2.
-      destruct (scan (skipn sw (concat (pending d))) 0 mw) as [[[c3 s3] m3] v3] eqn:E3.
-      inversion E2; subst c2 s2 m2 v3. clear E2.
-      apply (IH d2 mw _ true c3 s3 m3 Hwf2).
-      * unfold d2. cbn [set_head pending]. lia.
-      * rewrite Hr2. exact E3.
-      * exact Hm.
-      * rewrite Hw2. unfold d2. cbn [set_head buf pending]. rewrite J. exact Hrf.
-    + apply Nat.leb_gt in Esw.
-      pose proof (concat_nil_mu _ K) as Hmu0.
-      destruct f as [|f']; [lia|].
-      destruct (slice (buf d1) (head d1) (head d1 + sw)) as [extra|]; [|eexists; reflexivity].
-      cbn [slow_loop]. cbn [set_head buf head tail].
-      rewrite slice_none_gt by lia. eexists. reflexivity.
-  - destruct H as (A & B & C & D & E & F & G & J).
-    assert (Hd : deliver (length (buf d)) (pending d) = None).
-    { destruct (deliver (length (buf d)) (pending d)) as [[w' p']|] eqn:Ed; [|reflexivity].
-      destruct Hwf as (_ & _ & H3 & H4). destruct (isreader d) eqn:Er.
-      - destruct (deliver_some _ _ _ _ (H3 eq_refl) Ed) as (X & _ & Y & _).
-        rewrite D in Y. destruct w'; [contradiction|discriminate].
-      - rewrite (H4 eq_refl) in Ed. discriminate. }
-    rewrite Hd in Hrf. discriminate.
-Qed.
+Definition readStringAsBytes_pinned (n : Z) (d : dst) : res (option (list byte) * bool * dst) :=
+  if (n =? 0)%Z then Ok (None, true, d) else
+  match ensure d with
+  | Panic s => Panic s
+  | OutOfFuel => OutOfFuel
+  | Ok (false, d1) => Ok (None, true, d1)
+  | Ok (true, d1) =>
+    let length_ := (Z.of_nat (tail d1) - Z.of_nat (head d1))%Z in
+    if (n * 3 <=? length_)%Z then
+      match slice (buf d1) (head d1) (tail d1) with
+      | None => Panic PSlice
+      | Some w =>
+        match fast_loop (S (length w)) w 0 n with
+        | Panic s => Panic s
+        | OutOfFuel => OutOfFuel
+        | Ok None => Ok (None, false, set_err d1 EInvalidUTF8)
+        | Ok (Some off) =>
+          match slice (buf d1) (head d1) (head d1 + off) with
+          | None => Panic PStrFast
+          | Some x => Ok (Some x, false, set_head d1 (head d1 + off))
+          end
+        end
+      end
+    else slow_loop_pinned (S (fuel_of d1)) d1 n length_ None false
+  end.
 
-Lemma str_short_refill_panics : forall n d, wf d -> str_why n d = 2 ->
-  exists site, readStringAsSafeBytes n d = Panic site.
-Proof.
-  intros n d Hwf Hy. unfold readStringAsSafeBytes, readStringAsBytes. unfold str_why in Hy.
-  destruct (n =? 0)%Z eqn:En; [discriminate|].
-  pose proof (ensure_spec d Hwf) as H.
-  destruct (ensure d) as [[[|] d1]| |]; try contradiction; [|discriminate].
-  destruct H as (A & B & C & D & E & F & G & J).
-  pose proof (length_window d1 A) as Hlw.
-  assert (Hlen : (Z.of_nat (tail d1) - Z.of_nat (head d1))%Z = Z.of_nat (length (window d1)))
-    by (destruct A; lia).
-  unfold str_parts in Hy.
-  destruct (scan (remaining d1) 0 n) as [[[c s] m] v] eqn:Es.
-  destruct v; cbn [andb negb] in Hy; [|discriminate].
-  destruct (0 <=? m)%Z eqn:Em; cbn [negb] in Hy; [|discriminate].
-  rewrite Hlen.
-  destruct (n * 3 <=? Z.of_nat (length (window d1)))%Z; [discriminate|].
-  destruct (refill_ok (S (fuel_of d1)) n (window d1) (length (buf d1)) (pending d1)) eqn:Erf;
-    cbn [negb] in Hy.
-  - destruct (negb ((c =? length (remaining d1)) && (s =? 0) && (m <=? 0)%Z)); discriminate.
-  - destruct (slow_loop_panics (S (fuel_of d1)) d1 n None false c s m A
-                ltac:(unfold fuel_of, mu; lia) Es ltac:(lia) Erf) as (site & Hp).
-    rewrite Hlen in Hp. rewrite Hp. cbn [bind]. eexists. reflexivity.
-Qed.
+
+Definition readStringAsSafeBytes_pinned (n : Z) (d : dst) : res (option (list byte) * dst) :=
+  bind (readStringAsBytes_pinned n d) (fun '(x, safe, d1) =>
+  Ok (if safe then x else Some (match x with Some v => v | None => [] end), d1)).
+
+Definition euro : list byte := [xe2; x82; xac].
+Definition quote : byte := x22.
+
+(* a 3-byte character handed over 1+1+1: the old slow path sliced dec.buf[2:1] *)
+Lemma pinned_split3_panicked :
+  readStringAsSafeBytes_pinned 1 (reader_mode 8 [[xe2]; [x82]; [xac]; [quote]]) = Panic PStrWindow /\
+  fst (run_list [CStr 1] (reader_mode 8 [[xe2]; [x82]; [xac]; [quote]])) = [(VBytes (Some euro), None)].
+Proof. split; vm_compute; reflexivity. Qed.
+
+(* a 3-byte character ending the input, split 2+1: the old code reported io.EOF *)
+Lemma pinned_end_eof :
+  (exists d1, readStringAsSafeBytes_pinned 1 (reader_mode 8 [[xe2; x82]; [xac]]) = Ok (Some euro, d1) /\
+              err d1 = Some EEOF) /\
+  fst (run_list [CStr 1] (reader_mode 8 [[xe2; x82]; [xac]])) = [(VBytes (Some euro), None)].
+Proof. split; [eexists; split; vm_compute; reflexivity|vm_compute; reflexivity]. Qed.
